@@ -897,6 +897,9 @@ class Sequence:
         maxdelay = max(delays)
 
         for pos in range(1, seqlen + 1):
+            # raw arrays are padded at the sample rate of their element,
+            # exactly as Element._applyDelays (used by forge) does
+            element_SR = data[pos].SR
             for chanind, chan in enumerate(channels):
                 element = data[pos]
                 delay = delays[chanind]
@@ -932,8 +935,10 @@ class Sequence:
                 else:
                     arrays = element._data[chan]["array"]
                     for name, arr in arrays.items():
-                        pre_wait = np.zeros(int(round(delay * self.SR)))
-                        post_wait = np.zeros(int(round((maxdelay - delay) * self.SR)))
+                        pre_wait = np.zeros(int(round(delay * element_SR)))
+                        post_wait = np.zeros(
+                            int(round((maxdelay - delay) * element_SR))
+                        )
                         arrays[name] = np.concatenate((pre_wait, arr, post_wait))
 
         # Now forge all the elements as specified
